@@ -204,8 +204,10 @@ def correspond(ctx, corr):
     suite_serial(ctx, corr, ids, picks, allcmds)
     suite_daliserver(ctx, corr, ids, picks, allcmds)
     suite_atx(ctx, corr, ids, picks, allcmds)
+    # directed scenarios that need no model trace run first: they still speak when a trace suite cannot run
+    route_tridonic_late(ctx, corr, ids, picks)
     route_tridonic(ctx, corr, ids, picks)
-    if not __import__("os").environ.get("NO_TWO"): route_two_tridonic(ctx, corr, ids, picks)
+    route_two_tridonic(ctx, corr, ids, picks)
     route_hasseb(ctx, corr, ids, picks)
     route_serial(ctx, corr, ids, picks)
     route_serial_delivery(ctx, corr, ids, picks, found)
@@ -837,6 +839,79 @@ def route_tridonic(ctx, corr, ids, picks):
         run_one(callers, order, rng.choice(["lock", "flight"]), rng.choice([1, 7, 254, 255]), rng.choice([0, 0, 1, 2, 3]))
     corr.count("traces", traces)
     corr.count("tridonic_routing", traces)
+
+
+def route_tridonic_late(ctx, corr, ids, picks):
+    """Reports that arrive AFTER their command has left the driver, while the next command is in flight: (a) the
+    first send is abandoned by its caller (cancelled while the bus is busy) and the gateway still transmits it and
+    reports on it; (b) the first send completed and the gateway reports on that sequence number again (the firmware
+    repeats the echo of the last transmitted frame when another master sends the same frame, then that frame's
+    answer).  The second caller must get the answer to ITS command (oracle only: the answer table)."""
+    rng = ctx.rng
+    queries = [picks[k] for k in KINDS if picks[k].response is not None]
+    n = 0
+
+    async def scenario(loop, ca, busa, cb, busb, seq0, variant):
+        ts = await sim.TriSim(seq0=seq0).start()
+        d = ts.d
+        history = []
+        ta = asyncio.ensure_future(d.send(ca))
+        await sim.settle(4)
+        seqa = ts.fos.written[-1][1]
+        history.append("caller A writes %s with sequence number %d" % (ca.frame, seqa))
+        ra = [tuple(int(x) for x in m.split(".")) for m in
+              ask(["enc tridonic %d %d %s 0" % (ca.sendtwice, len(ca.frame) == 24, busa)])[0].split()[1:]]
+        if variant == "abandoned":
+            ta.cancel()
+            history.append("caller A is cancelled before the gateway reports")
+        else:
+            for m in ra:
+                ts.deliver(sim.tri_packet(0x12, m[0], m[1:5], seqa))
+            history.append("the gateway reports %s for sequence number %d; caller A returns" % (
+                " ".join(tri_tok(m) for m in ra), seqa))
+        await sim.settle(5)
+        tb = asyncio.ensure_future(d.send(cb))
+        await sim.settle(4)
+        seqb = ts.fos.written[-1][1]
+        history.append("caller B writes %s with sequence number %d" % (cb.frame, seqb))
+        rb = [tuple(int(x) for x in m.split(".")) for m in
+              ask(["enc tridonic %d %d %s 0" % (cb.sendtwice, len(cb.frame) == 24, busb)])[0].split()[1:]]
+        for m in ra:
+            ts.deliver(sim.tri_packet(0x12, m[0], m[1:5], seqa))
+            await sim.settle(2)
+        history.append("late: the gateway reports %s for sequence number %d" % (" ".join(tri_tok(m) for m in ra), seqa))
+        for m in rb:
+            ts.deliver(sim.tri_packet(0x12, m[0], m[1:5], seqb))
+            await sim.settle(2)
+        history.append("the gateway reports %s for sequence number %d" % (" ".join(tri_tok(m) for m in rb), seqb))
+        await sim.settle(5)
+        if tb.done():
+            try:
+                res = "ok " + canon_answer(tb.result(), ids)
+            except BaseException as e:  # noqa
+                res = "err " + exc_name(e)
+        else:
+            res = "blocked"
+            tb.cancel()
+        if not ta.done():
+            ta.cancel()
+        await sim.settle(2)
+        return res, history, dict(d._outstanding)
+
+    for ca, cb in itertools.product(queries, repeat=2):
+        for variant in ("abandoned", "repeated"):
+            for busa, busb in (("v%d" % rng.randrange(1, 255), "s"), ("v%d" % rng.randrange(1, 128), "v%d" % rng.randrange(128, 255)),
+                               ("g", "v%d" % rng.randrange(256)), ("v7", "g")):
+                for seq0 in (1, rng.choice([2, 100, 254, 255])):
+                    res, history, left = sim.run(scenario, ca, busa, cb, busb, seq0, variant)
+                    check_table(corr, "tridonic", cb, busb, res, ids,
+                                history={"routing": history, "caller": "B", "command": str(cb), "bus": busb,
+                                         "variant": variant})
+                    if left:
+                        corr.disagree("tridonic_routing_late", {"history": history}, "outstanding empty",
+                                      "entries left: %s" % list(left))
+                    n += 1
+    corr.count("tridonic_late_reports", n)
 
 
 def route_two_tridonic(ctx, corr, ids, picks):
